@@ -74,8 +74,17 @@ pub fn grammar(rng: &mut Rng, n: usize) -> Vec<(String, String)> {
             ("keyid-data", format!("${}$v=19$m={},t={},p=1,keyid=AAAA,data=AAAA${}${}", alg, m, t, salt, hash)),
             ("huge-hash", phc(alg, "19", &ms, &ts, "1", &salt, &b64_nopad(&rng.bytes(600)))),
             ("unicode", phc(alg, "19", &ms, &ts, "1", &salt, "héllo wörld ✓")),
+            ("param-trailing-comma", format!("${}$v=19$m={},t={},p=1,${}${}", alg, m, t, salt, hash)),
+            ("param-empty", format!("${}$v=19$m={},,t={},p=1${}${}", alg, m, t, salt, hash)),
+            ("param-one-char", format!("${}$v=19$m={},t={},p=1,x${}${}", alg, m, t, salt, hash)),
+            ("param-one-char-first", format!("${}$v=19$x,m={},t={},p=1${}${}", alg, m, t, salt, hash)),
+            ("param-multibyte", format!("${}$v=19$m={},t={},p=1,aé=3${}${}", alg, m, t, salt, hash)),
+            ("param-multibyte-first", format!("${}$v=19$✓,m={},t={},p=1${}${}", alg, m, t, salt, hash)),
+            ("param-name-only", format!("${}$v=19$m=,t,p${}${}", alg, salt, hash)),
+            ("version-one-char", format!("${}$v$m={},t={},p=1${}${}", alg, m, t, salt, hash)),
+            ("version-multibyte", format!("${}$vé19$m={},t={},p=1${}${}", alg, m, t, salt, hash)),
         ];
-        let pick = if k < 2 { variants.len() } else { 6 };
+        let pick = if k < 2 { variants.len() } else { 8 };
         for j in 0..pick {
             let idx = if k < 2 { j } else { rng.below(variants.len() as u64) as usize };
             v.push((variants[idx].0.to_string(), variants[idx].1.clone()));
@@ -188,7 +197,9 @@ pub fn run_c10(out: &mut Out, tier: &str, seed: u64) {
         let pw = { let l = rng.below(40) as usize; rng.bytes(l) };
         let wrong = { let mut w = pw.clone(); w.push(b'x'); w };
         let ops = 1 + rng.below(3);
-        let mem = (8 + rng.below(56) as usize) * 1024;
+        // memory: mostly small; the first rounds take sizes whose segment (a quarter of the blocks) is longer than one address
+        // block of 128 and not a multiple of it, where the last address block of a segment is partly used
+        let mem = if r < 4 { [516usize, 1000, 1540, 2047][r] * 1024 } else { (8 + rng.below(56) as usize) * 1024 };
         // 1. dryoc string: self-describing, libsodium accepts the right password only
         out.search_evaluations += 4;
         match guard(|| crypto_pwhash_str(&pw, ops, mem)) {
